@@ -7,17 +7,14 @@ import (
 )
 
 var (
-	rev               = `\[([\d|a-f]{5,12})\]`
-	author            = `(.*?)\s\d{4}-\d{2}-\d{2}`
-	date              = `\d{4}-\d{2}-\d{2}`
-	changes           = `([\d-]+)[\t\s]+([\d-]+)[\t\s]+(.*)`
+	// a commit header, from its first character: [hash] author date subject (a log taken with a quoted format starts with "format:)
+	header            = `^(?:"format:)?\[([\da-f]{5,40})\]\s(.*?)\s(\d{4}-\d{2}-\d{2})(?:\s(.*))?$`
+	changes           = `^([\d-]+)[\t\s]+([\d-]+)[\t\s]+(.*)`
 	complexMoveRegStr = `(.*)\{(.*)\s=>\s(.*)\}(.*)`
 	basicMoveRegStr   = `(.*)\s=>\s(.*)`
-	changeModel       = `\s(\w{1,6})\s(mode 100(\d){3})?\s?(.*)(\s\(\d{2}%\))?`
+	changeModel       = `^\s(\w{1,6})\s(mode 100(\d){3})?\s?(.*)(\s\(\d{2}%\))?`
 
-	revReg         = regexp.MustCompile(rev)
-	authorReg      = regexp.MustCompile(author)
-	dateReg        = regexp.MustCompile(date)
+	headerReg      = regexp.MustCompile(header)
 	changesReg     = regexp.MustCompile(changes)
 	complexMoveReg = regexp.MustCompile(complexMoveRegStr)
 	basicMvReg     = regexp.MustCompile(basicMoveRegStr)
@@ -46,20 +43,8 @@ func UpdateMessageForChange(changedFile string) (string, string, string) {
 }
 
 func ParseLog(text string) {
-	allString := revReg.FindAllString(text, -1)
-	if len(allString) == 1 {
-		str := ""
-		id := revReg.FindStringSubmatch(text)
-		str = strings.Split(text, id[0])[1]
-		auth := authorReg.FindStringSubmatch(str)
-		str = strings.Split(str, auth[1])[1]
-		dat := dateReg.FindStringSubmatch(str)
-		msg := strings.Split(str, dat[0])[1]
-		if len(msg) > 1 {
-			msg = msg[1:]
-		}
-
-		currentCommit = CommitMessage{id[1], auth[1][1:], dat[0], msg, nil}
+	if head := headerReg.FindStringSubmatch(text); len(head) == 5 {
+		currentCommit = CommitMessage{head[1], head[2], head[3], head[4], nil}
 	} else if changesReg.MatchString(text) {
 		changes := changesReg.FindStringSubmatch(text)
 		deleted, _ := strconv.Atoi(changes[2])
